@@ -533,6 +533,15 @@ def lw_recheck(ctx):
     n = 0
     for fn in F.crate_fns():
         regs = [(bb, t) for bb, t in fn.calls() if (t['func'].get('fn') or '').endswith('AtomicWaker::register') and not fn.blocks[bb]['cleanup']]
+        # the same wait built from an atomic flag and a waker slot of its own: `if flag.load() {Ready} else { *slot = Some(waker); Pending }`
+        atomics = [bb for bb, t in fn.calls() if not fn.blocks[bb]['cleanup'] and 'sync::atomic::' in (t['func'].get('fn') or '') and (t['func'].get('fn') or '').split('::')[-1] == 'load']
+        if atomics and not regs:
+            for bb, b in enumerate(fn.blocks):
+                if b['cleanup']:
+                    continue
+                for s_ in b['stmts']:
+                    if s_['k'] == 'assign' and s_['pl']['p'] and clean_ty(s_['pl'].get('ty') or '') == 'core::option::Option<core::task::wake::Waker>' and s_['rv']['k'] == 'agg' and s_['rv'].get('variant') == 'Some':
+                        regs.append((bb, {'target': bb, 'func': {'fn': 'slot'}}))
         if not regs:
             continue
         pend = []
